@@ -32,9 +32,9 @@ PROPS = {
     'C07': dict(groups=['zobrist'], ops={'zob': ['keys'], 'mv': ['hash']}),
     'C08': dict(groups=['fen'], ops={'fen': ['fen', 'rt', 'setup'], 'pfen': ['b']}),
     'C09': dict(groups=['fen'], ops={'pfen': ['c'] + POSKEYS_ABS + ['pm', 'cm', 'comb', 'pin', 'chk', 'term', 'hash', 'g']}),
-    'C10': dict(groups=['parse', 'fen'], ops={'pmove': ['r', 'rr'], 'psq': ['r'], 'pfile': ['r'], 'prank': ['r'],
-                                              'ppiece': ['r'], 'g.frompgn': ['r'], 'pfen': ['b', 'c', 'g']},
-                classes_only={'pfen': ['b', 'c', 'g']}),
+    'C10': dict(groups=['parse', 'fen', 'pgn'], ops={'pmove': ['r', 'rr'], 'psq': ['r'], 'pfile': ['r'], 'prank': ['r'],
+                                              'ppiece': ['r'], 'g.frompgn': ['r'], 'pfen': ['b', 'c', 'g'], 'g.pgn': ['rt']},
+                classes_only={'pfen': ['b', 'c', 'g'], 'g.pgn': ['rt']}),
     'C11': dict(groups=['game'], ops={'g.new': ['status', 'cnt', 'cnts'], 'g.act': ['status', 'cnt', 'cnts']}),
     'C12': dict(groups=['game'], ops={'g.new': ['status', 'tag', 'hlen'], 'g.act': ['r', 'status', 'tag', 'hlen', 'fen', 'hash', 'cnts']}),
     'C13': dict(groups=['game'], ops={'g.hist': ['text', 'lookup', 'flags', 'chain'], 'g.act': ['hlen']}),
